@@ -284,6 +284,7 @@ def _run_rate_case(case):
     r = case["rate"]
     arg, call = _rate_arg(r, case.get("rate_type", "py")), case.get("call", "pos")
     s0 = _snap(obj)
+    raw0 = snapshot(obj)  # dimension 15: the un-normalised snapshot - column dtypes AND the exact type of every attribute (a numpy scalar stays one)
     out = []
     try:
         res = _call_rate(obj, arg, call)
@@ -291,7 +292,7 @@ def _run_rate_case(case):
         return [("rate_raises", f"rate({arg!r}) [{call}]: {type(ex).__name__}: {ex}")]
     if res is obj:
         out.append(("returns_new_chart", "rate() returned its argument"))
-    d = diff(s0, _snap(obj))
+    d = diff(s0, _snap(obj)) or diff(raw0, snapshot(obj))
     if d:
         out.append(("original_untouched", "; ".join(d[:3])))
     s1 = _snap(res)
@@ -328,9 +329,10 @@ def _run_rate_case(case):
                 sb = _snap(target)
                 if who == "original" and diff(s1, _snap(res)):
                     out.append(("result_independent_of_the_original", f"the original was changed ({how}) after rate(); the rated result changed: " + "; ".join(diff(s1, _snap(res))[:3])))
+                rawb = snapshot(target)
                 again = _call_rate(target, arg, call)
                 out.extend((w, f"the {who} changed ({how}) after rate() and rated again: {d}") for w, d in _cmp_rated(sb, _snap(again), r))
-                d = diff(sb, _snap(target))
+                d = diff(sb, _snap(target)) or diff(rawb, snapshot(target))
                 if d:
                     out.append(("original_untouched", f"the {who} changed ({how}) after rate() and rated again: " + "; ".join(d[:3])))
         except Exception as ex:
@@ -384,6 +386,36 @@ _TEXT_META = dict(
     bms=dict(title="〜ＷＡＶＥ　東方".encode("shift_jis"), artist="アーティスト".encode("shift_jis")),
     o2j=dict(),
 )
+
+
+def _distinct_meta(game, of_set=False):
+    """dimension 14: {attribute: value} giving EVERY int / float / str / bool / list-of-str attribute of the game's chart (or mapset)
+    class a non-default value that differs from every sibling attribute (numbers 1003, 1010, 1017, ...; strings 'f<name>'), so that a
+    field scaled although the statement does not name it, or two fields exchanged, cannot hide behind equal or zero values.  The
+    names come from the dataclass itself; bytes / dict / other attributes keep the values of the standard charts."""
+    from contracts.C12_bounded import game_table
+    t = game_table()[game]
+    cls = t["mapset"] if of_set else t["map"]
+    if cls is None:
+        return {}
+    o = cls()
+    out, k = {}, 0
+    for f in dataclasses.fields(o):
+        if f.name in ("objs", "maps"):
+            continue
+        v = getattr(o, f.name)
+        k += 1
+        if isinstance(v, bool):
+            out[f.name] = not v
+        elif isinstance(v, int):
+            out[f.name] = 1003 + 7 * k
+        elif isinstance(v, float):
+            out[f.name] = 1003.5 + 7 * k
+        elif isinstance(v, str):
+            out[f.name] = "f " + f.name
+        elif isinstance(v, list) and v and all(isinstance(x, str) for x in v):
+            out[f.name] = ["l " + f.name, "m " + f.name]
+    return out
 
 
 def _rate_specs(game):
@@ -441,6 +473,14 @@ def _rate_specs(game):
                   **({"svs": [(0, 0.0), (1, -1e6), (2, 1e6), (3, 1e-9)]} if sv else {}), **({"samples": [(0, "a.wav", 0), (1, "b.wav", 100)]} if osx else {}),
                   **({"stops": [(0, 0), (1, 1e9), (2, -5)]} if game == "sm" else {}))
     out.append(("value_range", vr))
+    # --- dimension 15: the dtype states the library itself leaves a chart in: the result of an earlier rate() (integer / bool columns
+    #     re-typed), a list that got an item appended, a chart edited through stack(); the original must keep values AND types
+    st = dict(hits=[(0, 0), (250, 1), (600, 2)], holds=[(700, 3, 100)], bpms=[(0, 120), (1000, 90)], **sv, **osx)
+    out.append(("state_after_rate", std_spec(game, pre=[["rate", 1.25]], **st)))
+    out.append(("state_after_append", std_spec(game, pre=[["append", "hits"], ["append", "bpms"]], **st)))
+    out.append(("state_after_stack_edit", std_spec(game, pre=[["stack_edit"]], **st)))
+    # --- dimension 14: every attribute of the chart non-default and different from every other attribute
+    out.append(("all_fields_distinct", dict(std_spec(game, **st), meta=_distinct_meta(game))))
     # --- text fields that must come through unchanged
     out.append(("text_meta", dict(std_spec(game, hits=[(0, 0), (250, 1)], holds=[(500, 2, 125)], bpms=[(0, 120)], **sv), meta=_TEXT_META[game])))
     return out
@@ -458,6 +498,9 @@ def _rate_objects(game):
     out.append((f"{game}:set_empty_in_the_middle", dict(game=game, maps=[d["full"], d["all_empty"], d["permuted_rows_and_labels"]])))
     out.append((f"{game}:set_kind_missing_in_the_middle", dict(game=game, maps=[d["full"], d["no_bpms"], d["no_hits_no_svs"], d["ties_extremes"]])))
     out.append((f"{game}:set_int_and_text", dict(game=game, maps=[d["int_typed"], d["text_meta"], d["unsorted_rev_labels"]])))
+    if _distinct_meta(game, True):
+        out.append((f"{game}:set_all_fields_distinct", dict(game=game, maps=[d["all_fields_distinct"], d["full"]], meta=_distinct_meta(game, True))))
+    out.append((f"{game}:set_dtype_states", dict(game=game, maps=[d["state_after_rate"], d["state_after_append"], d["state_after_stack_edit"], d["int_typed"]])))
     if game == "osu":
         out.append((f"{game}:set_previews", dict(game=game, maps=[d["preview_sentinel"], d["full"], d["only_samples"], d["preview_fraction"]])))
     if game == "sm":
@@ -498,7 +541,10 @@ def _rate_plan(rng, quick):
                 if k >= 2 and sub.random() < 0.08:
                     case["rate"] = sub.choice(RATES_EXTREME)
                     case["rate_type"] = "py"
-                plan.append((k, rng.random(), label, case))
+                # the dimension 14 / 15 objects take their first turn right AFTER the first turn of all earlier objects (round 0.5), so that a
+                # run cut short on a busy machine has still seen every earlier object once
+                late = k == 0 and any(tag in label for tag in (":state_", ":all_fields_distinct", ":set_dtype_states", ":set_all_fields_distinct"))
+                plan.append((0.5 if late else k, rng.random(), label, case))
     plan.sort(key=lambda x: (x[0], x[1]))
     return [(k, label, case) for k, _, label, case in plan]
 
@@ -521,7 +567,7 @@ def rate_in_memory(rep):
     nobj = len({label for _, label, _ in plan})
     rep.bound = (f"5 games x (17-22 charts: full, each list empty on its own (holds+SVs+samples / hits / tempo / all), one row per list, SVs only, samples only, ties (two rows of a list at one time with different values, time 0, "
                  f"zero-length holds, +-1e6..1e9 ms), EVERY list under reversed / masked / gappy / sorted() / permuted row labels and out of time order, integer-typed columns, non-ASCII text fields, osu preview -1 / 0 / fractional, "
-                 f".sm stops without holds; 8-12 mapsets incl. an empty one, an empty chart and a chart lacking one kind in the MIDDLE, osu charts with samples inside a generic MapSet, .sm file offsets 1000 / -250 / int-typed) "
+                 f".sm stops without holds, EVERY int / float / str / bool attribute of the chart and of the mapset non-default and distinct from its siblings, charts in the dtype states left by an earlier rate() / append of an item / stack edit (original compared incl. column dtypes and exact attribute types); 9-13 mapsets incl. an empty one, an empty chart and a chart lacking one kind in the MIDDLE, osu charts with samples inside a generic MapSet, .sm file offsets 1000 / -250 / int-typed) "
                  f"= {nobj} objects x rates {RATES} + {RATES_MORE} + random in [0.3, 3] ({len(plan)} planned, run round by round: every object first with one rate != 1, then with rate 1, then the rest; {n} run, rounds {sorted(rounds)[:1]}..{sorted(rounds)[-1:]}); "
                  f"the rate passed as python number / numpy float64 / numpy int64, positionally / by keyword / through the class; each with a second rate for the composition clause and a repeated rate() of the same original; "
                  f"for the first round and a quarter of the rest, original and result are edited afterwards (independence); for every object in one of the first two rounds and for 30% of the later cases the ORIGINAL is changed in place after rate() "
